@@ -12,7 +12,12 @@ import (
 // wholeDefs lists the whole-variable writes to obj inside f (not in nested literals).
 func wholeDefs(f *ir.Func, obj types.Object) []ir.Write {
 	var out []ir.Write
-	for _, w := range f.WritesIn(f.Body, false) {
+	// a variable captured from an enclosing function is defined there: search the whole declared function
+	scope, lits := f.Body, false
+	if v, ok := obj.(*types.Var); ok && f.Lit != nil && (v.Pos() < f.Lit.Pos() || v.Pos() >= f.Lit.End()) {
+		scope, lits = f.Top().Body, true
+	}
+	for _, w := range f.WritesIn(scope, lits) {
 		if id, ok := ast.Unparen(w.LHS).(*ast.Ident); ok && f.ObjOf(id) == obj {
 			out = append(out, w)
 		}
